@@ -146,9 +146,12 @@ type ClientConn struct {
 	SegBytes   int    `json:"seg_bytes,omitempty"`
 	LingerUs   int64  `json:"linger_us"` // how long after its last op the client keeps the transport open
 	XFF        string `json:"xff,omitempty"`
-	ClientCert string `json:"client_cert,omitempty"` // "" | good | otherca
-	HTTP2      bool   `json:"http2,omitempty"`
-	Coalesce   bool   `json:"coalesce,omitempty"` // stream clients: write all frames whose time has come in one Write
+	ClientCert string `json:"client_cert,omitempty"` // "" | good | otherca | plain (no TLS at all on a tls listener)
+	// PlainAfterFail: when the TLS handshake fails the client keeps the TCP
+	// connection and sends its queries as plain DNS-over-TCP frames on it.
+	PlainAfterFail bool `json:"plain_after_fail,omitempty"`
+	HTTP2          bool `json:"http2,omitempty"`
+	Coalesce       bool `json:"coalesce,omitempty"` // stream clients: write all frames whose time has come in one Write
 }
 
 type EDNSSpec struct {
